@@ -43,6 +43,7 @@ for _n in ("2", "3", "4"):
 # joint instantiations over the reals (`*_real_instance`)
 THEOREM_FUNCS.update({
     "Line3_mulM44_def": ["Line3.mulM44"], "Line3_mulM44": ["Line3.mulM44"],
+    "cpDen_stored_parallel": ["LineAlgo.closestPoints"],
     "closestPointToLine_cases": ["Line3.closestPointToLine"], "cpl_guard_den_ne_zero": ["Line3.closestPointToLine"],
     "Line3_closestPointToLine_no_div_by_zero": ["Line3.closestPointToLine"],
     "Plane3_mulM44_projective": ["Plane3.mulM44"], "Plane3_mulM44_projective_contains": ["Plane3.mulM44"],
@@ -121,6 +122,50 @@ DIFFER_KEY = "distanceToLine:parallel-in-lattice-directions-differ-by-rounding"
 # the open finding PARALLEL_KEY must not hide a regression: share of bitwise-parallel pairs reported `true` (clean tree, seeds 1-3,
 # n = 1500 / 6000: 0.38 .. 0.55)
 PARALLEL_TRUE_SHARE_MAX = 0.70
+# lattice line parallel to a lattice plane at distance h > 0: Plane3::intersectT answers true when normal.dir of the two rounded unit vectors
+# is rounding noise instead of 0; the "hit" is ~h/eps away and on neither (third member of the family; judged, was only counted)
+PLANE_PARALLEL_KEY = "intersectT:lattice-parallel-line-reported-hit"
+# open findings must not hide a regression: (counter of failures, counter of cases, ceiling of the share, floor of cases) per element type.
+# clean tree, seeds 1-6 (n = 1500) and 1-3 (n = 6000): closestPoints 0.38..0.55; distanceTo wrong 0.26..0.37 (double), 0.64..0.81 (float);
+# intersectT true 0.07..0.30
+SHARE_BOUNDS = {
+    "distanceTo(line) wrong on lattice-parallel pairs whose directions differ by rounding":
+        ("parallel_differ_by_rounding_distance:%s:wrong", "parallel_in_lattice_but_directions_differ_by_rounding:%s", {"double": 0.65, "float": 0.95}, 15,
+         "residue:Line3.distanceToLine:differ-by-rounding-wrong-share"),
+    "Plane3::intersectT true for a lattice line parallel to the plane at distance > 0":
+        ("plane_line_parallel_off_plane_reported_hit:%s", "plane_line_parallel_off_plane:%s", {"double": 0.55, "float": 0.55}, 8,
+         "residue:Plane3.intersectT:lattice-parallel-true-share"),
+}
+# counted-not-judged decisions next to an edge / a parallel plane: ceilings on the share that disagrees with the lattice answer
+# (clean tree: near-edge differ 0.31..0.40; line (nearly) parallel to the triangle's plane reported hit 0.02..0.08)
+COUNT_SHARES = {
+    "triangle decisions within c*eps of an edge that differ from the lattice answer":
+        (["triangle_near_edge:%s:differ"], ["triangle_near_edge:%s:differ", "triangle_near_edge:%s:agree"], 0.60, 100, True),
+    "line (nearly) parallel to the triangle's plane reported as hit":
+        (["triangle_line_parallel_to_plane:reported_hit"], ["triangle_line_parallel_to_plane:reported_hit", "triangle_line_parallel_to_plane:reported_miss"], 0.25, 20, False),
+}
+# DRIFT: the error bounds of the harness (c*eps*scale*cond with c = 4..64) are 10-300x the clean-tree maxima; an accuracy regression of one
+# or two digits would pass them.  Ceilings = 4 x the largest value observed on the clean tree (seeds 1-6 at n = 1500, 1-3 at n = 6000),
+# in the same unit (error / (eps*scale*cond)), per function and element type.
+DRIFT = {
+    "Line3.closestPointToLine:double": 5.8, "Line3.closestPointToLine:float": 6.9, "Line3.closestPointToPoint:double": 2.7,
+    "Line3.closestPointToPoint:float": 2.9, "Line3.distanceToLine:double": 1.3, "Line3.distanceToLine:float": 1.5,
+    "Line3.distanceToLine:translation-invariant:double": 4.6, "Line3.distanceToLine:translation-invariant:float": 4.2,
+    "Line3.distanceToPoint:double": 1.8, "Line3.distanceToPoint:float": 1.9, "Line3.eval:double": 2.5, "Line3.eval:float": 2.7,
+    "Line3.mulM44:double": 4.6, "Line3.mulM44:float": 4.4, "Line3.set:double": 3.1, "Line3.set:float": 2.9, "LineAlgo.closestPoints:double": 5.8,
+    "LineAlgo.closestPoints:float": 6.9, "LineAlgo.intersect:double": 2.4, "LineAlgo.intersect:float": 2.1, "LineAlgo.rotatePoint:double": 5,
+    "LineAlgo.rotatePoint:float": 4.4, "Plane3.distanceTo:double": 1.9, "Plane3.distanceTo:float": 2.5, "Plane3.intersect:double": 2.4,
+    "Plane3.intersect:float": 2.7, "Plane3.intersectT:double": 2.4, "Plane3.intersectT:float": 2.4, "Plane3.mulM44:double": 4.5,
+    "Plane3.mulM44:float": 5, "Plane3.neg:double": 3.5, "Plane3.neg:float": 3.6, "Plane3.reflectPoint:double": 15, "Plane3.reflectPoint:float": 14,
+    "Plane3.reflectVector:double": 17, "Plane3.reflectVector:float": 17, "Plane3.setNormalDistance:double": 3.1, "Plane3.setNormalDistance:float": 3,
+    "Plane3.setPointNormal:double": 3.1, "Plane3.setPointNormal:float": 3, "Plane3.setPoints:double": 3.1, "Plane3.setPoints:float": 3,
+    "Sphere3.circumscribe:double": 1.5, "Sphere3.circumscribe:float": 1.4, "Sphere3.intersect:double": 6, "Sphere3.intersect:float": 6.8,
+    "Sphere3.intersectT:double": 8.3, "Sphere3.intersectT:float": 7.9, "VecAlgo2.orthogonal:double": 5.4, "VecAlgo2.orthogonal:float": 8,
+    "VecAlgo2.project:double": 5.4, "VecAlgo2.project:float": 8, "VecAlgo2.reflect:double": 11, "VecAlgo2.reflect:float": 16,
+    "VecAlgo3.orthogonal:double": 12, "VecAlgo3.orthogonal:float": 12, "VecAlgo3.project:double": 12, "VecAlgo3.project:float": 12,
+    "VecAlgo3.reflect:double": 24, "VecAlgo3.reflect:float": 23, "VecAlgo4.orthogonal:double": 13, "VecAlgo4.orthogonal:float": 12,
+    "VecAlgo4.project:double": 13, "VecAlgo4.project:float": 12, "VecAlgo4.reflect:double": 25, "VecAlgo4.reflect:float": 24,
+}
 
 
 def parallel_repro(binary, idx_deps):
@@ -184,6 +229,27 @@ def property_text_obligations(chk, binary, idx_deps):
                  {"real_code_at_double": {"V3 s=(1,2,3) t=(0,0,1)": got3, "V2 s=(1,2) t=(0,1)": got2, "V4 s=(1,2,3,4) t=(0,0,0,1)": got4},
                   "documented_by_the_header_comment": {"V3": [1, 2, -3], "V2": [1, -2], "V4": [1, 2, 3, -4]},
                   "theorems": ["VecAlgo2/3/4_reflect (what the code does)", "VecAlgo3_reflect_negative_of_documented_witness (negation)"]}, True)
+
+
+def plane_parallel_repro(binary, idx_deps):
+    """fixed concrete instance: the plane through (0,0,-2) with normal (12,6,-12) (unit normal (2,1,-2)/3) and the line through (-1,-4,-4) and
+    (2,0,1) (direction (3,4,5)/sqrt 50): normal.direction = (6+4-10)/(3 sqrt 50) = 0, the line runs parallel to the plane at distance 2/3"""
+    import math
+    out = {"concrete_input": "Plane3d(V3d(0,0,-2), V3d(12,6,-12)).intersectT(Line3d(V3d(-1,-4,-4), V3d(2,0,1)), t): the line is parallel to the plane at distance 2/3 "
+                             "((2,1,-2).(3,4,5) = 0); returns true with t = 1.2e16",
+           "reading": "normal ^ line.dir of the two rounded unit vectors is 5.6e-17 instead of 0, so `if (d == 0) return false` is not taken and t = -(normal^pos - distance)/d "
+                      "is the distance divided by rounding noise; the point pos + t*dir is 1e16 away and on neither the line's lattice points nor the plane "
+                      "(property: line-plane intersections lie on both). As with the two line findings the REPRESENTED objects are not exactly parallel"}
+    if binary:
+        n = [12.0 / 18.0, 6.0 / 18.0, -12.0 / 18.0]
+        dist = n[0] * 0.0 + n[1] * 0.0 + n[2] * -2.0
+        l = math.sqrt(50.0)
+        cmd = [binary, "real", "Plane3.intersectT"] + [repr(x) for x in n] + [repr(dist), "-1", "-4", "-4"] + [repr(x / l) for x in (3.0, 4.0, 5.0)]
+        for d in idx_deps:
+            cmd += ["--idx", d]
+        rc, o = lib.sh(cmd, timeout=120)
+        out["real_code_at_double_on_the_stored_values"] = o.strip().split("\n")[-1] if o.strip() else None
+    return out
 
 
 def differ_repro(binary, idx_deps):
@@ -271,7 +337,12 @@ def _extra_args(meta):
     return " ".join(out)
 
 
-def rat_grid_search(chk, index, which, binary=None, idx_deps=()):
+BOUNDARY_CLASSES = ("on-edge-or-vertex", "overflow-guard-parameter>=tmax", "root-at-zero", "tangent")
+
+
+def rat_grid_search(chk, index, which, binary=None, idx_deps=(), boundary_only=False):
+    """boundary_only (quick tier): only the configurations ON a decision boundary (hit on an edge or a vertex, hit parameter >= tmax, ray origin
+    on the sphere, tangent ray) plus every 7th of the others"""
     meta = {d["name"]: d for d in index}
     cases, lines = [], ["import ImathVerif.Gen.C15Algo", "import ImathVerif.Gen.C15Sphere", "open ImathVerif ImathVerif.Gen", RAT_PRELUDE]
     if which == "triangle" and "LineAlgo.intersect" in meta:
@@ -312,12 +383,21 @@ def rat_grid_search(chk, index, which, binary=None, idx_deps=()):
                 lines.append('#eval IO.println (let r := %s; "RATGRID %d " ++ (if r.1 then "1 " ++ fr r.2 else "0"))' % (call, len(cases) - 1))
     if not cases:
         return None
+    if boundary_only:
+        # lines[:4] are the imports / prelude; one #eval line per case follows: renumber the kept ones
+        keep = [i for i, c in enumerate(cases) if c["class"] in BOUNDARY_CLASSES or i % 7 == 0]
+        head, evals = lines[:len(lines) - len(cases)], lines[len(lines) - len(cases):]
+        lines = head + [re.sub(r'"RATGRID \d+ "', '"RATGRID %d "' % k, evals[i]) for k, i in enumerate(keep)]
+        cases = [cases[i] for i in keep]
     rc, out = lib.lean_run_file("\n".join(lines) + "\n", timeout=900, name="c15grid")
     got = dict((int(m.group(1)), m.group(2).strip()) for m in re.finditer(r"RATGRID (\d+) ([^\n]*)", out))
     if len(got) < len(cases) // 2:
         lib.log("rat_grid_search(%s): could not evaluate: %s" % (which, out[-400:]))
         return None
-    chk.extra.setdefault("rat_grid_search", {})[which] = {"cases": len(cases), "evaluated": len(got)}
+    cls = {}
+    for c in cases:
+        cls[c["class"]] = cls.get(c["class"], 0) + 1
+    chk.extra.setdefault("rat_grid_search", {})[which] = {"cases": len(cases), "evaluated": len(got), "per_class": cls, "boundary_only": boundary_only}
     bad = [(i, c) for i, c in enumerate(cases) if i in got and got[i] != c["expect"]]
     if not bad:
         return None
@@ -749,6 +829,8 @@ def run(chk):
                     key = PARALLEL_KEY
                 elif fn == "Line3.distanceToLine" and b["class"] == "parallel-directions-differ-by-rounding":
                     key = DIFFER_KEY
+                elif fn == "Plane3.intersectT" and b["class"] == "lattice-parallel-line-reported-hit":
+                    key = PLANE_PARALLEL_KEY
                 elif b["class"].startswith("overflow-guard") or b["class"].startswith("projective"):
                     key = "residue:%s:%s" % (fn, b["class"])
                 elif fn in FUNC_THEOREM:
@@ -762,6 +844,9 @@ def run(chk):
                 if key == PARALLEL_KEY:
                     rep.update(parallel_repro(bins.get("sym_c15"), [leaf_idx]))
                     rep["classes"] = sorted(set(b["class"] for b in bs))
+                if key == PLANE_PARALLEL_KEY:
+                    rep.update(plane_parallel_repro(bins.get("sym_c15"), [leaf_idx]))
+                    rep["input_layout"] = "lattice points p1 p2 p3 (plane = Plane3(p1, (p2-p1)x(p3-p1))), a0 a1 (line = Line3(a0,a1))"
                 if key == DIFFER_KEY:
                     rep.update(differ_repro(bins.get("sym_c15"), [leaf_idx]))
                     rep["counts"] = dict((k, v) for k, v in res["counts"].items() if "differ" in k)
@@ -798,20 +883,61 @@ def run(chk):
             chk.oblige("residue:reach: %s: %s cases (>= %d each)" % (what, "/".join(str(x) for x in v), floor), "residue", okv, None if okv else v)
             if not okv:
                 chk.fail("residue:reach", "residue:reach:" + what.split(" (")[0].replace(" ", "-")[:60], "a structured class of the residue harness is (almost) never generated", {"counts": v}, False)
+        for what, (num_k, den_k, ceil, floor_n, key) in SHARE_BOUNDS.items():
+            for ty in ("double", "float"):
+                tr, tot = cnt.get(num_k % ty, 0), cnt.get(den_k % ty, 0)
+                okr = tot >= floor_n and tr / tot <= ceil[ty]
+                chk.oblige("residue:share:%s: %s: %d of %d, share <= %.2f (the open finding must not hide a regression)" % (ty, what, tr, tot, ceil[ty]),
+                           "residue", okr, None if okr else {"failures": tr, "cases": tot})
+                if not okr:
+                    chk.fail("residue:share:%s: %s" % (ty, what), "%s:%s" % (key, ty),
+                             "%s: %d of %d cases at %s, outside the band of the recorded finding (ceiling %.2f, at least %d cases): a regression of the "
+                             "exact-zero test hidden behind the known finding, or the class is no longer generated" % (what, tr, tot, ty, ceil[ty], floor_n),
+                             {"failures": tr, "cases": tot, "element_type": ty, "ceiling": ceil[ty]}, False)
+        for what, (num_ks, den_ks, ceil, floor_n, per_type) in COUNT_SHARES.items():
+            for ty in (("double", "float") if per_type else ("",)):
+                g = lambda ks: sum(cnt.get(k % ty if per_type else k, 0) for k in ks)
+                tr, tot = g(num_ks), g(den_ks)
+                okr = tot >= floor_n and tr / tot <= ceil
+                nm = "residue:count-share:%s%s: %d of %d, share <= %.2f" % (what, (" (%s)" % ty) if ty else "", tr, tot, ceil)
+                chk.oblige(nm, "residue", okr, None if okr else {"count": tr, "cases": tot})
+                if not okr:
+                    chk.fail(nm, "residue:count-share:%s%s" % (what.replace(" ", "-")[:50], ":" + ty if ty else ""),
+                             "a counted-not-judged class left its clean-tree band: %s: %d of %d (ceiling %.2f, at least %d cases)" % (what, tr, tot, ceil, floor_n),
+                             {"count": tr, "cases": tot, "ceiling": ceil}, False)
+        # drift: measured maxima against 4 x the clean-tree maxima
+        over = dict((k, [res["maxima"][k], b]) for k, b in DRIFT.items() if k in res["maxima"] and res["maxima"][k] > b)
+        unknown = sorted(k for k in res["maxima"] if k not in DRIFT)
+        absent = sorted(k for k in DRIFT if k not in res["maxima"])
+        okd = not over and not unknown and not absent
+        chk.oblige("residue:drift: all %d measured maxima (error / (eps*scale*cond), per function and element type) <= 4 x the clean-tree maximum"
+                   % len(DRIFT), "residue", okd, None if okd else {"over": over, "no_ceiling_for": unknown, "not_measured": absent})
+        for k, (v, b) in over.items():
+            chk.fail("residue:drift", "residue-drift:" + k, "accuracy drift: the worst error of %s is %.3g (units of eps*scale*cond) on this tree, the clean-tree "
+                     "maximum is %.3g; still inside the coarse bound of the harness" % (k, v, b / 4), {"function": k, "measured": v, "ceiling": b}, False)
+        if (unknown or absent) and not over:
+            chk.fail("residue:drift", "residue-drift:table", "the drift table of tools/props/c15.py does not match the functions the harness measures",
+                     {"no_ceiling_for": unknown, "not_measured": absent}, False)
         chk.residues["C15"] = {"evaluations": res["evals"],
                                "worst_error_in_units_of_eps_times_scale_times_conditioning": res["maxima"],
                                "bounds": "4 (unit vectors), 16-64 (points, distances, parameters); conditioning 1/sin^2 for line pairs, 1/|cos| for "
                                          "line-plane and line-triangle hits, |p||e|/|N| for barycentrics, 1+scale/sqrt(disc) for sphere roots",
                                "counted_not_judged": res["counts"]}
-    if chk.thorough:
-        # the model at Rat against the geometric definition on rational configurations incl. every boundary case
+    if True:
+        # the model at Rat against the geometric definition on rational configurations incl. every boundary case (quick tier: the boundary
+        # classes and every 7th other configuration; thorough: the whole grid)
         for which in ("triangle", "sphere"):
-            g = rat_grid_search(chk, index, which, binary=bins.get("sym_c15"), idx_deps=[leaf_idx])
-            n = chk.extra.get("rat_grid_search", {}).get(which, {}).get("evaluated", 0)
-            chk.oblige("rat-grid:%s: model at Rat = geometric definition on %d rational configurations incl. edges/vertices/tangency/zero roots" % (which, n),
-                       "correspondence", g is None and n > 0, g)
+            g = rat_grid_search(chk, index, which, binary=bins.get("sym_c15"), idx_deps=[leaf_idx], boundary_only=not chk.thorough)
+            info = chk.extra.get("rat_grid_search", {}).get(which, {})
+            n = info.get("evaluated", 0)
+            nb = sum(v for k, v in info.get("per_class", {}).items() if k in BOUNDARY_CLASSES)
+            chk.oblige("rat-grid:%s: model at Rat = geometric definition on %d rational configurations, %d of them on a decision boundary "
+                       "(edge/vertex, parameter >= tmax, tangency, zero root)%s" % (which, n, nb, "" if chk.thorough else " [quick subset]"),
+                       "correspondence", g is None and n > 0 and n == info.get("cases") and nb >= 10, g)
             chk.count(n, n)
             if g:
                 chk.fail("rat-grid:" + which, "rat-grid:%s:%s" % (g["function"], g["class"]), "the extracted model disagrees with the geometric definition in exact arithmetic", g, True)
-        if built:
+            elif not (n > 0 and n == info.get("cases") and nb >= 10):
+                chk.fail("rat-grid:" + which, "rat-grid:%s:not-evaluated" % which, "the exact rational grid was not (completely) evaluated", {"info": info}, False)
+        if built and chk.thorough:
             chk.leanchecker(PROPS)   # needs the compiled module: skipped while a theorem of the module is reported as failing
